@@ -44,17 +44,33 @@ func verifSameL(a, b *verifRecL) bool {
 	return a.Name == b.Name
 }
 
+// verifFixedL: harnesses that explore something else fix the file layout
+// (one page per row, page index read) instead of case-splitting over it.
+var verifFixedL bool
+
+func verifPickL(tag string, hi int) int {
+	if verifFixedL {
+		return 0
+	}
+	return vChoose(tag, 0, hi)
+}
+
 func verifOpenL(rows []verifRecL) (*File, bool) {
 
 	vUnwind(1 << 16)
 	var opts []WriterOption
-	switch vChoose("layout", 0, 2) {
+	switch verifPickL("layout", 2) {
 	case 0:
 		opts = append(opts, PageBufferSize(1)) // one page per row
 	case 1:
 		opts = append(opts, PageBufferSize(1), MaxRowsPerRowGroup(2)) // and three row groups
 	case 2:
 		opts = append(opts, DataPageVersion(1), PageBufferSize(40))
+	}
+	if verifFixedL {
+		// no min/max for the column with the symbolic byte: the comparisons that
+		// compute them would fork every path five ways
+		opts = append(opts, SkipPageBounds("name"))
 	}
 	buf := new(bytes.Buffer)
 	w := NewGenericWriter[verifRecL](buf, opts...)
@@ -70,7 +86,7 @@ func verifOpenL(rows []verifRecL) (*File, bool) {
 	}
 	data := buf.Bytes()
 	var ropts []FileOption
-	if vChoose("skipPageIndex", 0, 1) == 1 {
+	if verifPickL("skipPageIndex", 1) == 1 {
 		ropts = append(ropts, SkipPageIndex(true))
 	}
 	f, err := OpenFile(bytes.NewReader(data), int64(len(data)), ropts...)
@@ -320,4 +336,59 @@ func VerifH_C08_forwardSeekOnConvertedRows() {
 		next += got
 	}
 	vCover("forward seek")
+}
+
+// Row-range views (the slices merge refinement cuts out of a row group): a view
+// [off, off+length) over a real file's row group behaves like a row group of
+// its own: after SeekToRow(k) reads return rows off+k, off+k+1, ... and end at
+// the end of the view, for every history of seeks and reads.
+func VerifH_C08_rowRangeViewSeeks() {
+	vUnwind(1 << 16)
+	vAbstractCRCFixedWidth() // page checksums are not the subject
+	verifFixedL = true
+	const n = 5
+	rows := verifRowsL(n)
+	f, ok := verifOpenL(rows)
+	if !ok {
+		return
+	}
+	base := f.RowGroups()[0]
+	total := int(base.NumRows())
+	off := vChoose("viewOffset", 0, 2)
+	length := total - off - vChoose("cutTail", 0, 1)
+	view := newRowRangeRowGroup(base, int64(off), int64(length))
+	vAssert(view.NumRows() == int64(length), "the view reports its length")
+	rr := view.Rows()
+	defer rr.Close()
+	schema := SchemaOf(verifRecL{})
+	next := 0
+	for op := 0; op < 3; op++ {
+		if vChoose("op", 0, 1) == 0 {
+			k := vChoose("seekTo", 0, length)
+			if err := rr.SeekToRow(int64(k)); err != nil {
+				vAssert(false, "seek inside the view succeeds")
+				return
+			}
+			next = k
+			continue
+		}
+		batch := make([]Row, vChoose("batch", 1, 2))
+		got, err := rr.ReadRows(batch)
+		vAssert(err == nil || err == io.EOF, "read reports no error")
+		want := len(batch)
+		if next+want > length {
+			want = length - next
+		}
+		vAssert(got == want, "read returns the rows that remain in the view, up to the batch size")
+		for i := 0; i < got && next+i < length; i++ {
+			var v verifRecL
+			if schema.Reconstruct(&v, batch[i]) != nil {
+				vAssert(false, "row re-assembles")
+				return
+			}
+			vAssert(verifSameL(&v, &rows[off+next+i]), "the view returns its own rows from the target on")
+		}
+		next += got
+	}
+	vCover("range view")
 }
